@@ -253,7 +253,7 @@ pub fn run(ctx: &Ctx) -> i32 {
     // candidate expressions have tens to hundreds of class atoms (size limits of the self-check)
     {
         let al: Vec<String> = ["a", "b", "+", "-", "=", "1"].iter().map(|s| s.to_string()).collect();
-        let n = if ctx.thorough { 3000 } else { 200 };
+        let n = if ctx.thorough { 6000 } else { 600 };
         par_for(&ctx.run, n, |i, st| {
             let mut rng = Rng::new(seed, 0x83_0000 + i as u64);
             let k = 12 + rng.below(30);
